@@ -232,6 +232,9 @@ class Check:
         if not lines:
             return []
         shards = shards or min(NCPU, max(1, len(lines) // 40))
+        # memory: elaborating the case literals costs ~0.7 MB per case; cap the shard
+        # size so that NCPU concurrent coqc stay far below the machine's memory
+        shards = max(shards, -(-len(lines) // 600))
         files = []
         for k in range(shards):
             part = lines[k::shards]
@@ -249,7 +252,14 @@ class Check:
             return sh(cmd, cwd=self.work, timeout=timeout)
         bad = []
         with ThreadPoolExecutor(max_workers=NCPU) as ex:
-            for path, (rc, out) in zip(files, ex.map(one, files)):
+            results = list(ex.map(one, files))
+        # a coqc killed from outside (OOM killer, signal: negative or 137 exit code and no
+        # Coq error message) says nothing about the model: evaluate that shard again, alone
+        for i, (rc, out) in enumerate(results):
+            if rc != 0 and rc != 124 and "Error" not in out:
+                results[i] = one(files[i])
+        if True:
+            for path, (rc, out) in zip(files, results):
                 if rc != 0:
                     self.coq_ok = False
                     self.coq_error = "%s did not evaluate: %s" % (os.path.basename(path), out[-1500:])
